@@ -117,6 +117,51 @@ def _a_repr_sites(run, model, rule, fi, apname, name_params):
     return box[0]
 
 
+def reeval_once(run, model, rule="C16.reeval-once"):
+    """Building the message re-evaluates the violated condition once: on every path through ``generate_message`` the
+    values are computed (``repr_values``, directly or through a helper) exactly once -- a second rendering, say with
+    another ``a_repr`` when the first came out too long, calls the functions named in the condition a third time."""
+    mod = model.modules["_represent"]
+    tops = [fi for fi in mod.funcs if fi.parent is None and fi.cls is None and fi.live]
+    rv = model.func("_represent.repr_values")
+    gm = model.func("_represent.generate_message")
+    R = {rv.name}
+    changed = True
+    while changed:
+        changed = False
+        for fi in tops:
+            if fi.name in R or fi is gm:
+                continue
+            if any(isinstance(c, ast.Call) and isinstance(c.func, ast.Name) and c.func.id in R for c in ast.walk(fi.node)):
+                R.add(fi.name)
+                changed = True
+    flow = get_flow(model, gm)
+    run.saw(flow)
+    ps = tables.paths(flow)
+    bad = None
+    n_ret = 0
+    for p in ps:
+        if p.outcome is None or p.outcome[0] != "return":
+            continue
+        n_ret += 1
+        k = 0
+        where = None
+        for ct, n in p.calls:
+            g = fi_of_term(model, ct[1])
+            if g is not None and g.module.name == "_represent" and g.name in R:
+                k += 1
+                where = n
+        if k != 1 and bad is None:
+            bad = (where, "a path through generate_message computes the values %d times (%s): each computation re-evaluates the condition -- the functions it calls run once more than documented" % (k, ", ".join(sorted(R))))
+    # no loop may repeat the computation either
+    for n in flow.cfg.nodes:
+        if n.kind == "next":
+            for sub in ast.walk(n.stmt):
+                if isinstance(sub, ast.Call) and isinstance(sub.func, ast.Name) and sub.func.id in R and bad is None:
+                    bad = (n, "the values are computed inside a loop of generate_message")
+    run.check(bad is None and n_ret > 0, rule, gm.qual, "the values are computed exactly once on each of the %d returning path(s)" % n_ret, bad[1] if bad else "no returning path found", gm.loc(bad[0]) if bad and bad[0] is not None else gm.loc())
+
+
 def eager_render(run, model, rule="C06.rendered-at-violation"):
     """The values are turned into text while the violation is being reported, not when somebody reads the message:
     no lambda / nested function of the message machinery calls ``<a_repr>.repr`` (or a helper that does) -- a deferred
